@@ -10,33 +10,34 @@ open Nq Nq.SmtpOut Nq.RemoteSmtp Nq.RspawnReport Nq.Spec.RemoteVerdict
 /-! ### the commands the server receives -/
 
 /-- `w` (before a possible final QUIT, `q`) is a prefix of the full command sequence `F`; each recipient
-report was preceded by its RCPT command; `K` only with everything sent -/
-def WireOK (a : Args) (F : Bytes) (r : Res) : Prop :=
+report was preceded by its RCPT command; `K` only with everything sent, QUIT included unless the QUIT
+write is the one that fails -/
+def WireOK (a : Args) (wf : Option WPoint) (F : Bytes) (r : Res) : Prop :=
   ∃ w q, r.wire = w ++ (if q = true then quitCmd else []) ∧ w <+: F ∧
-    (r.rcpt = [] ∨ cmdsUpTo a r.rcpt.length <+: w) ∧ (headB r.msg = cK → q = true ∧ w = F)
+    (r.rcpt = [] ∨ cmdsUpTo a r.rcpt.length <+: w) ∧ (headB r.msg = cK → (q = true ∨ wf = some .quit) ∧ w = F)
 
-theorem wire_lost (a : Args) (F : Bytes) (rs : List Bytes) (w : Bytes) (c wo : Bool) (h1 : w <+: F)
-    (h2 : rs = [] ∨ cmdsUpTo a rs.length <+: w) : WireOK a F (lost a rs w c wo) :=
+theorem wire_lost (a : Args) {wf : Option WPoint} (F : Bytes) (rs : List Bytes) (w : Bytes) (c wo : Bool) (h1 : w <+: F)
+    (h2 : rs = [] ∨ cmdsUpTo a rs.length <+: w) : WireOK a wf F (lost a rs w c wo) :=
   ⟨w, false, by simp [lost], h1, h2, by
     intro hk; simp only [lost, headB_dropped] at hk; exact absurd hk (by decide)⟩
 
-theorem wire_msg (a : Args) (F : Bytes) (rs : List Bytes) (m w : Bytes) (wo : Bool) (h1 : w <+: F)
+theorem wire_msg (a : Args) {wf : Option WPoint} (F : Bytes) (rs : List Bytes) (m w : Bytes) (wo : Bool) (h1 : w <+: F)
     (h2 : rs = [] ∨ cmdsUpTo a rs.length <+: w) (hm : headB m ≠ cK) :
-    WireOK a F { rcpt := rs, msg := m, wire := w, wireOpen := wo } :=
+    WireOK a wf F { rcpt := rs, msg := m, wire := w, wireOpen := wo } :=
   ⟨w, false, by simp, h1, h2, fun hk => absurd hk hm⟩
 
 theorem wire_quit (a : Args) (F : Bytes) (wf : Option WPoint) (rs : List Bytes) (w pre app txt : Bytes) (h1 : w <+: F)
     (h2 : rs = [] ∨ cmdsUpTo a rs.length <+: w) (hne : pre ≠ []) (hK : headB pre = cK → w = F) :
-    WireOK a F (quitWith a wf rs w pre app txt) := by
+    WireOK a wf F (quitWith a wf rs w pre app txt) := by
   unfold quitWith
-  by_cases h : wf = some .quit
-  · simp only [h, if_true]; exact wire_lost a F rs w false false h1 h2
-  · simp only [h, if_false]
-    refine ⟨w, true, by simp [quitCmd], h1, h2, ?_⟩
+  have hK' : headB (pre ++ a.host ++ app ++ lit ".\n" ++ said txt) = cK → w = F := by
     intro hk
     simp only [List.append_assoc] at hk
     rw [headB_append _ _ hne] at hk
-    exact ⟨rfl, hK hk⟩
+    exact hK hk
+  by_cases h : wf = some .quit
+  · exact ⟨w, false, by simp [h], h1, h2, fun hk => ⟨Or.inr h, hK' hk⟩⟩
+  · exact ⟨w, true, by simp [h, quitCmd], h1, h2, fun hk => ⟨Or.inl rfl, hK' hk⟩⟩
 
 theorem cmdsUpTo_succ (a : Args) (done more : List Bytes) (r : Bytes) (h : a.rcpts = done ++ r :: more) :
     cmdsUpTo a (done.length + 1) = cmdsUpTo a done.length ++ (lit "RCPT TO:<" ++ r ++ lit ">\r\n") := by
@@ -60,7 +61,7 @@ theorem cmdsUpTo_prefix_full (a : Args) (enc : Bytes) (j : Nat) : cmdsUpTo a j <
 theorem data_wire (a : Args) (wf : Option WPoint) (enc : Bytes) (henc : ∀ e, rblast a.msg = some e → e = enc)
     (rs : List Bytes) (w : Bytes) (bother : Bool) (txt : Bytes) (fs : List Bytes)
     (hw : w = cmdsUpTo a a.rcpts.length) (hr : rs = [] ∨ cmdsUpTo a rs.length <+: w) :
-    WireOK a (fullCmds a ++ enc) (dataPhase a wf rs w bother txt fs) := by
+    WireOK a wf (fullCmds a ++ enc) (dataPhase a wf rs w bother txt fs) := by
   have hw1 : w ++ lit "DATA\r\n" = fullCmds a := by rw [hw]; exact cmdsUpTo_all a
   have p0 : w <+: fullCmds a ++ enc := by rw [hw]; exact cmdsUpTo_prefix_full a enc _
   have q1 : w ++ lit "DATA\r\n" <+: fullCmds a ++ enc := by rw [hw1]; exact List.prefix_append _ _
@@ -123,7 +124,7 @@ theorem rcpt_wire (a : Args) (wf : Option WPoint) (enc : Bytes) (henc : ∀ e, r
     (more : List Bytes) :
     ∀ (done : List Bytes) (rs : List Bytes) (w : Bytes) (bother : Bool) (txt : Bytes) (fs : List Bytes),
     a.rcpts = done ++ more → rs.length = done.length → w = cmdsUpTo a done.length →
-    WireOK a (fullCmds a ++ enc) (rcptLoop a wf done.length more rs w bother txt fs) := by
+    WireOK a wf (fullCmds a ++ enc) (rcptLoop a wf done.length more rs w bother txt fs) := by
   induction more with
   | nil =>
     intro done rs w bother txt fs hsplit hlen hw
@@ -164,7 +165,7 @@ theorem rcpt_wire (a : Args) (wf : Option WPoint) (enc : Bytes) (henc : ∀ e, r
             rw [hdl] at this; exact this
 
 theorem run_wire (a : Args) (wf : Option WPoint) (enc : Bytes) (henc : ∀ e, rblast a.msg = some e → e = enc)
-    (fs : List Bytes) : WireOK a (fullCmds a ++ enc) (run a wf fs) := by
+    (fs : List Bytes) : WireOK a wf (fullCmds a ++ enc) (run a wf fs) := by
   have w0 : ([] : Bytes) <+: fullCmds a ++ enc := List.nil_prefix
   have hc0 : cmdsUpTo a 0 = lit "HELO " ++ a.helo ++ lit "\r\n" ++ (lit "MAIL FROM:<" ++ a.sender ++ lit ">\r\n") := by
     simp [cmdsUpTo]
@@ -209,8 +210,8 @@ theorem run_wire (a : Args) (wf : Option WPoint) (enc : Bytes) (henc : ∀ e, rb
                     exact rcpt_wire a wf enc henc a.rcpts [] [] _ false _ fs (by simp) rfl hc0.symm
 
 /-- the Boolean predicate of the driver follows -/
-theorem wireOrder_of_WireOK (a : Args) (enc : Bytes) (r : Res) (h : WireOK a (fullCmds a ++ enc) r) :
-    wireOrder a enc r.wire (obsOf r) = true := by
+theorem wireOrderQ_of_WireOK (a : Args) (wf : Option WPoint) (enc : Bytes) (r : Res) (h : WireOK a wf (fullCmds a ++ enc) r) :
+    wireOrderQ a enc r.wire (obsOf r) (wf == some .quit) = true := by
   obtain ⟨w, q, h1, h2, h3, h4⟩ := h
   have hp : w.isPrefixOf (fullCmds a ++ enc) = true := List.isPrefixOf_iff_prefix.mpr h2
   have hr : ((obsOf r).rl.isEmpty || (cmdsUpTo a (obsOf r).rl.length).isPrefixOf w) = true := by
@@ -219,13 +220,17 @@ theorem wireOrder_of_WireOK (a : Args) (enc : Bytes) (r : Res) (h : WireOK a (fu
     · have : (cmdsUpTo a (obsOf r).rl.length).isPrefixOf w = true := by
         simp only [obsOf, List.length_map]; exact List.isPrefixOf_iff_prefix.mpr h3
       simp [this]
-  unfold wireOrder
+  unfold wireOrderQ wireOrder
   cases q with
   | false =>
     have hw : r.wire = w := by simpa using h1
-    have hk : ((obsOf r).ml != cK) = true := by
-      simp only [bne_iff_ne, ne_eq]; intro hk; have := (h4 hk).1; simp at this
-    simp [wireOrderW, hw, hp, hr, hk]
+    by_cases hk : (obsOf r).ml = cK
+    · obtain ⟨hq, hF⟩ := h4 hk
+      have hq' : wf = some .quit := by rcases hq with hq | hq; · simp at hq
+                                                            · exact hq
+      simp [wireOrderW, hw, hp, hr, hq', hF]
+    · have hk' : ((obsOf r).ml != cK) = true := by simpa using hk
+      simp [wireOrderW, hw, hp, hr, hk']
   | true =>
     have hw : r.wire = w ++ quitCmd := by simpa using h1
     have hs : quitCmd.isSuffixOf r.wire = true := by rw [hw]; exact List.isSuffixOf_iff_suffix.mpr (List.suffix_append _ _)
@@ -235,7 +240,6 @@ theorem wireOrder_of_WireOK (a : Args) (enc : Bytes) (r : Res) (h : WireOK a (fu
       · have := (h4 hk).2; simp [this]
       · simp [hk]
     rw [hs, ht]
-    simp only [wireOrderW, hp, hr, Bool.true_and, hk, Bool.or_true]
-
+    simp only [wireOrderW, hp, hr, Bool.true_and, hk, Bool.or_true, Bool.true_or]
 
 end Nq.Lemmas.RemoteSmtp
